@@ -12,7 +12,7 @@ import copy
 import re
 
 ASSIGN = ('=', '+=', '-=', '*=', '/=', '%=', '<<=', '>>=', '&=', '|=', '^=')
-SCALAR = re.compile(r'^(const )?(unsigned |signed )?(char|short|int|long|long long|bool|float|double|size_t|ssize_t|ptrdiff_t|u?int(8|16|32|64)_t|uintptr_t|intptr_t)( const)?$')
+SCALAR = re.compile(r'^(const )?(unsigned |signed )?(char|short|int|long|long long|bool|_Bool|float|double|size_t|ssize_t|ptrdiff_t|u?int(8|16|32|64)_t|uintptr_t|intptr_t)( const)?$')
 
 
 def _strip(e):
